@@ -217,6 +217,25 @@ class C12(F.Check):
         dense += [int(sympy.nextprime(x)) for x in dense[::7]] + [int(sympy.prevprime(x)) for x in dense[3::11]]
         for a, b, c in ((547, 557, 563), (1009, 1013, 1019), (65521, 65537, 65539)):
             dense += [a * b * c, a * a * b]
+        # primes whose first Selfridge parameter D (5, -7, 9, -11, ... with Jacobi symbol -1) is large in magnitude, just below every
+        # power of two from 2^33 to 2^64, one with positive and one with negative D per width: products D*x in the strong Lucas
+        # recurrences exceed 2^64 there unless they go through mul_mod (red-team change C12_r8: a direct product below 2^60)
+        def selfridge_d(n):
+            d = 5
+            while sympy.jacobi_symbol(d % n, n) != -1:
+                d = -(abs(d) + 2) if d > 0 else abs(d) + 2
+            return d
+        self.large_d = []
+        for kk in range(33, 65):
+            want, x, tries = {1, -1}, 1 << kk, 0
+            while want and tries < 4000:
+                x, tries = int(sympy.prevprime(x)), tries + 1
+                d = selfridge_d(x)
+                if abs(d) >= 17 and (1 if d > 0 else -1) in want:
+                    want.discard(1 if d > 0 else -1)
+                    self.large_d.append(x)
+        dense += self.large_d
+        self.extra_cov["is_prime_large_selfridge_d"] = len(self.large_d)
         dense = sorted(set(int(x) for x in dense if 1 < x < (1 << 64)))
         self.extra_cov["is_prime_dense_list"] = len(dense)
         for i in range(0, len(dense), 16):
